@@ -35,6 +35,8 @@ type Obligation struct {
 	Model   map[string]string
 	Output  string
 	SMTFile string
+	Replayed   bool   // a concrete failing input was found and replayed on the real code
+	ReplayNote string
 }
 
 type solverSpec struct {
